@@ -4,10 +4,10 @@ CONSTANTS
   p2 = p2
   p3 = p3
   Procs = {p1,p2}
-  ChunkSize = 4
-  Sizes = {1,3,4}
+  ChunkSize = 2
+  Sizes = {1,2}
   NAllocs = 3
-  InitSizes = {1}
+  InitSizes = {0, 1}
   MaxRetries = 3
   Dev = "none"
 INVARIANTS Disjoint InChunk InSize Mapped NoIndexPanic ChunkInv LockInv Accounted
